@@ -160,3 +160,11 @@ mod tests {
         hasher.finish()
     }
 }
+
+#[cfg(simple_dns_verif)]
+impl<'a> CharacterString<'a> {
+    /// verification hook: raw bytes of this character-string
+    pub fn verif_bytes(&self) -> &[u8] {
+        &self.data
+    }
+}
